@@ -83,7 +83,7 @@ class Checkers(object):
         return self.ctx.fn(path)['hir']
 
     def callers(self, target):
-        return set(self.ctx.cg.callers(target))
+        return self.ctx.callers(target)
 
     def calls(self, root, suffix):
         return [n for n in H.walk(root) if n.get('k') in ('Call', 'MethodCall') and (S.norm_path(H.callee_path(n) or '')).endswith(suffix)]
@@ -845,9 +845,32 @@ def inventory(ctx, rid, desc, roots=None, scope=None, floor_sites=None, floor_fu
             raise Unrecognised('I/O set has only %d functions (expected >= %d)' % (len(funcs), floor_funcs))
         chk = Checkers(ctx)
         nsites = 0
+        # sites of every function first: a site inside a private helper the oracle vocabulary does not know is
+        # accounted to the helper's only caller (its owner), taking that function's next unused discharge entry
+        # of the same kind -- extracting code into a helper does not make its panic sites new ones
+        all_sites = {p: site_list(ctx, p) for p in funcs}
+        used = set(s['key'] for p in funcs for s in all_sites[p])
+        for p in funcs:
+            own = ctx.owner(p)
+            if own == p:
+                continue
+            for s in all_sites[p]:
+                if s['key'] in PD.DISCHARGE:
+                    continue
+                i = 0
+                while True:
+                    k2 = '%s|%s|%s#%d' % (own, s['kind'], s['detail'], i)
+                    if k2 not in PD.DISCHARGE:
+                        break
+                    if k2 not in used:
+                        used.add(k2)
+                        s['moved_from'] = s['key']
+                        s['key'] = k2
+                        break
+                    i += 1
         for p in funcs:
             ctx.counts['functions_analysed'].add(p)
-            for s in site_list(ctx, p):
+            for s in all_sites[p]:
                 if s['detail'] == 'debug_assert' and p.startswith('io_loop::io_loop_handle::'):
                     # client-side only; not on the I/O thread (reached through over-approximate edges)
                     continue
